@@ -160,18 +160,36 @@ package query
 //@   ensures result1 == nil ==> result0 != nil
 //@   assigns nothing
 
-// The loop-carrying variant decoders only allocate fresh nodes (assumed).
+// The loop-carrying variant decoders only allocate fresh nodes and index
+// within the arrays they made (verified; they were trusted until F72 showed what
+// a trusted decoder can hide).
 //@ func query.AndFromProto
-//@   trusted
+//@   loop 1:
+//@     invariant (p == nil ==> len(children) == 0) && (p != nil ==> len(children) == len(p.Children)) && fresh(children)
+//@   ensures true
 //@   assigns nothing
 //@ func query.OrFromProto
+//@   loop 1:
+//@     invariant (p == nil ==> len(children) == 0) && (p != nil ==> len(children) == len(p.Children)) && fresh(children)
+//@   ensures true
+//@   assigns nothing
+// (frame of the per-entry decoder assumed: it builds a fresh bitmap; its crash
+// freedom is verified separately)
+//@ func query.BranchReposFromProto
+//@   ensures true
+//@ func query.BranchReposFromProto
 //@   trusted
+//@   flag only_for=query.BranchesReposFromProto
 //@   assigns nothing
 //@ func query.BranchesReposFromProto
-//@   trusted
+//@   loop 1:
+//@     invariant (p == nil ==> len(brs) == 0) && (p != nil ==> len(brs) == len(p.List)) && fresh(brs)
+//@   ensures true
 //@   assigns nothing
 //@ func query.FileNameSetFromProto
-//@   trusted
+//@   loop 1:
+//@     invariant m != nil && fresh(m)
+//@   ensures true
 //@   assigns nothing
 // RawConfigFromProto is verified (it was trusted until F72: it read p.Flags of
 // an unset message). The generated getter is the nil-safe way in.
